@@ -4,7 +4,7 @@
      LegalMethodName   the PascalCase of every snake_case Rust name of the name space is a legal Varlink member name
      OmitsOnlyNone     (every drawn declaration) the parameters object lists exactly the arguments that are not None
      FormsAgree        (by construction) the expectation does not depend on the call form *)
-EXTENDS ProxyGen, Json, Randomization
+EXTENDS ProxyGen, Json, Randomization, SequencesExt
 CONSTANTS NDecl
 
 Names == {<<"ping">>, <<"x">>, <<"v2">>, <<"get", "info">>, <<"get", "2fa">>, <<"do", "it">>, <<"url", "of", "x9">>,
@@ -15,9 +15,15 @@ Classes == {"scalar", "str", "string", "slice", "strslice", "struct", "generic"}
 PC == [cls : Classes, ren : BOOLEAN, none : {FALSE}] \cup [cls : OptClasses, ren : BOOLEAN, none : BOOLEAN]
 PNames == <<"a", "name", "type_", "x2">>
 PRen == <<"wireName", "type", "kebab-name", "X">>
-Mk(choices) == [i \in 1..Len(choices) |->
-                  [name |-> PNames[i], rename |-> IF choices[i].ren THEN PRen[i] ELSE "", cls |-> choices[i].cls,
-                   none |-> choices[i].none]]
+\* Rust parameter names: ordinary ones, and every value identifier the generated body itself uses or could use
+\* (a parameter so named must still travel under its own name with its own value)
+PNamePool == {"a", "name", "type_", "x2", "id", "method", "parameters", "params", "call", "method_call", "stream",
+              "reply", "error", "result", "err", "conn", "more", "oneway", "chain", "value", "self_"}
+MkN(choices, names) ==
+    [i \in 1..Len(choices) |->
+       [name |-> names[i], rename |-> IF choices[i].ren THEN PRen[i] ELSE "", cls |-> choices[i].cls,
+        none |-> choices[i].none]]
+Mk(choices) == MkN(choices, PNames)
 HasRef(ps) == \E i \in 1..Len(ps) : ps[i].cls \in {"str", "opt", "slice", "strslice", "struct"}
 \* one declaration drawn at random from the space (TLC's -seed decides): every component is drawn
 \* independently, so all pairs of component values occur with a few hundred draws
@@ -29,13 +35,19 @@ RandomDecl(i) ==
         o == RandomElement({"unit", "struct"})
         len == IF i % 10 = 0 THEN 0 ELSE RandomElement(1..4)       \* (a tenth without parameters)
         ps == [j \in 1..len |-> RandomElement(PC)]
+        \* half of the declarations use the four ordinary names, the others draw from the whole pool
+        nm == IF i % 2 = 0 THEN PNames ELSE SetToSeq(RandomSubset(4, PNamePool))
     IN [iface |-> "org.example.px", words |-> n, rename |-> rn, kind |-> k,
-        lt |-> IF lt = "explicit" /\ HasRef(ps) THEN "explicit" ELSE "elided", params |-> Mk(ps),
+        lt |-> IF lt = "explicit" /\ HasRef(ps) THEN "explicit" ELSE "elided", params |-> MkN(ps, nm),
         out |-> IF k = "oneway" THEN "unit" ELSE o]
 \* every class once as a single parameter, renamed and not (so that no row depends on the draw)
 Singles == {[iface |-> "org.example.px", words |-> <<"get", "info">>, rename |-> "", kind |-> "plain", lt |-> "elided",
              params |-> Mk(<<c>>), out |-> "struct"] : c \in PC}
-Picked == Singles \cup {RandomDecl(i) : i \in 1..NDecl}
+\* every name of the pool once as a &str and once as a scalar parameter of each kind of method
+Named == {[iface |-> "org.example.px", words |-> <<"do", "it">>, rename |-> "", kind |-> k, lt |-> "elided",
+           params |-> MkN(<<[cls |-> c, ren |-> FALSE, none |-> FALSE]>>, <<n>>), out |-> "unit"]
+          : n \in PNamePool, k \in Kinds, c \in {"str", "scalar"}}
+Picked == Singles \cup Named \cup {RandomDecl(i) : i \in 1..NDecl}
 
 \* Varlink member names: [A-Z][A-Za-z0-9]*
 DigitS == "0123456789"
